@@ -153,6 +153,26 @@ Section Reach.
     sl = slot_of h /\ item_at s sl <> None.
   Proof. intros R. apply reachable_Inv in R. apply (I_hm_wf _ _ _ R). Qed.
 
+  (** every tracked hash refers to a slot at or above the commit nonce: the comparison of a committed
+      nonce with the cached commit nonce in processCommitTransactions can never fail (the guard is
+      redundant once stale entries are gone), and a commit report cannot move the commit nonce back *)
+  Theorem tracked_above_commit s : reachable s -> forall h a n,
+    alookup tx_eqb h (hashmap s) = Some (a, n) -> get_cn s a < n + 1.
+  Proof.
+    intros R h a n E. apply reachable_Inv in R. destruct (I_hm_wf _ _ _ R h (a, n) E) as [_ Hit].
+    pose proof (I_it_cn _ _ _ R a n (fun f => f) Hit). lia.
+  Qed.
+
+  (** every batched mark refers to an entry of the priority index: priorityIndex.size() - len(batchedTxs)
+      is exactly the number of ready unbatched transactions, never less *)
+  Theorem batched_in_priority s : reachable s -> forall a n, In (a, n) (batched s) ->
+    exists ts, In (ts, (a, n)) (priority s).
+  Proof.
+    intros R a n H. apply reachable_Inv in R. pose proof (I_b_item _ _ _ R _ H) as Hit.
+    destruct (item_at s (a, n)) as [t|] eqn:Et; [|congruence]. exists (t_ts t).
+    apply (I_prio _ _ _ R). exists t. repeat split; auto. apply (I_b_hi _ _ _ R). exact H.
+  Qed.
+
   (** C19: the counter behind HasPendingRequest never under-counts the ready, unbatched slots *)
   Theorem counter_sound s : reachable s -> len (unb s (batched s)) <= pnbs s.
   Proof. intros R. apply reachable_Inv in R. apply (unb_le_pnbs s R). Qed.
